@@ -12,7 +12,10 @@ import (
 	errortypes "github.com/cosmos/cosmos-sdk/types/errors"
 	banktypes "github.com/cosmos/cosmos-sdk/x/bank/types"
 
+	"github.com/cosmos/gogoproto/proto"
+
 	haqqtypes "github.com/haqq-network/haqq/types"
+	evmtypes "github.com/haqq-network/haqq/x/evm/types"
 	zz "github.com/haqq-network/haqq/zzverif"
 )
 
@@ -40,7 +43,21 @@ func VerifC06_ExtensionOptions() {
 			}
 			opts = append(opts, dyn)
 		} else {
-			opts = append(opts, c06Opt(urls[u]))
+			// foreign options carry their decoded value, as after decoding a transaction from wire bytes
+			var v proto.Message
+			switch u {
+			case 1:
+				v = &evmtypes.ExtensionOptionsEthereumTx{}
+			case 2:
+				v = &haqqtypes.ExtensionOptionsWeb3Tx{TypedDataChainID: 11235}
+			default:
+				v = &banktypes.MsgSend{} // stands for any other registered message type used as an option
+			}
+			a, err := codectypes.NewAnyWithValue(v)
+			if err != nil {
+				panic(err)
+			}
+			opts = append(opts, a)
 		}
 		if u != 0 {
 			foreign = true
